@@ -52,6 +52,8 @@ Inductive devent :=
 | DAck (k : nat)                         (* batch number k acknowledged as persisted *)
 | DPurgeBolt (epochs : list Z)
 | DRemoveZap (sid : Z)
+| DMergeAbort (newid : Z)              (* a merge that wrote segment [newid] failed or was interrupted by
+                                          Close before it was handed to the introducer: it is dropped *)
 | DCopyStart | DCopyEnd (sids : list Z)
 | DCrash
 | DRecover
@@ -108,6 +110,13 @@ Definition swaps_root (e : event) : bool := match e with EMergeStart _ _ => fals
 
 Definition file_segs (r : list seg) : list Z := map sid (filter sfile r).
 Definition inflight_news (s : st) : list Z := flat_map (fun m => map t_new (m_tasks m)) (inflight s).
+
+Fixpoint ins_seg (p : Z * list nat) (l : list (Z * list nat)) : list (Z * list nat) :=
+  match l with
+  | [] => [p]
+  | q :: l' => if fst p <=? fst q then p :: l else q :: ins_seg p l'
+  end.
+Definition sort_segs (l : list (Z * list nat)) : list (Z * list nat) := fold_right ins_seg [] l.
 
 (* copyScheduled is a counter per file name: ending one copy releases one reference *)
 Fixpoint remove_one (x : Z) (l : list Z) : list Z :=
@@ -196,6 +205,14 @@ Definition dstep (d : dstate) (ev : devent) : option dstate :=
       then None
       else Some (mkD (d_core d) (d_pub d) (d_nb d) (d_batches d) (d_segdocs d) (d_bolt d) (d_tx d)
                      (filter (fun f => negb (f =? sid)) (d_files d)) (d_copy d) (d_acked d) true)
+  | DMergeAbort newid =>
+      if negb (d_up d) then None else
+      let c := d_core d in
+      Some (mkD (mkSt (root c) (internal c)
+                      (filter (fun m => negb (mem_id newid (map t_new (m_tasks m)))) (inflight c))
+                      (used_sids c) (epoch c))
+                (d_pub d) (d_nb d) (d_batches d) (d_segdocs d) (d_bolt d) (d_tx d) (d_files d)
+                (d_copy d) (d_acked d) true)
   | DCopyStart =>
       if negb (d_up d) then None else
       Some (mkD (d_core d) (d_pub d) (d_nb d) (d_batches d) (d_segdocs d) (d_bolt d) (d_tx d)
@@ -214,7 +231,9 @@ Definition dstep (d : dstate) (ev : devent) : option dstate :=
       match newest (d_bolt d) with
       | None => None
       | Some n =>
-          match rec_root (d_segdocs d) (br_segs n) with
+          (* loadSnapshot walks the bucket's segment sub-buckets in key order, i.e. by ascending
+             segment id: the root's original segment order is not preserved across a reopen *)
+          match rec_root (d_segdocs d) (sort_segs (br_segs n)) with
           | Some r =>
               if forallb (fun id => mem_id id (d_files d)) (named_by n) then
                 (* files no committed record names are deleted at open; segment ids restart above
@@ -234,8 +253,12 @@ Definition dstep (d : dstate) (ev : devent) : option dstate :=
   | DRollback e =>
       if d_up d then None else
       if existsb (fun b => br_epoch b =? e) (d_bolt d)
-      then Some (mkD (d_core d) (d_pub d) (d_nb d) (d_batches d) (d_segdocs d)
-                     (filter (fun b => br_epoch b <=? e) (d_bolt d)) None (d_files d) [] (d_acked d) false)
+      then
+        (* batches after the rollback point are deliberately discarded, with their acknowledgements *)
+        let k := match assocZ e (d_nb d) with Some k => k | None => 0%nat end in
+        Some (mkD (d_core d) (d_pub d) (d_nb d) (d_batches d) (d_segdocs d)
+                  (filter (fun b => br_epoch b <=? e) (d_bolt d)) None (d_files d) []
+                  (filter (fun a => Nat.leb a k) (d_acked d)) false)
       else None
   end.
 
